@@ -311,6 +311,24 @@ Definition apply_line (a : app) (l : line) (st : state) : option state :=
       else None
   end.
 
+(* what a line that is NOT accepted leaves behind: an array line is sent element by element,
+   the elements in front of the first one no port accepts have been applied *)
+Fixpoint apply_elems_partial (a : app) (i : nat) (k : nat) (vs : value) (st : state) : state :=
+  match vs with
+  | [] => st
+  | v :: r => match set_elem a st i k v with
+              | Some st' => apply_elems_partial a i (S k) r st'
+              | None => st
+              end
+  end.
+Definition partial_line (a : app) (l : line) (st : state) : state :=
+  match find_port a (l_path l) with
+  | None => st
+  | Some i =>
+      if Bool.eqb (l_array l) (p_array (port_at a i)) && l_array l
+      then apply_elems_partial a i 0 (l_vals l) st else st
+  end.
+
 (* dispatch in the given order; stops at the first message no port accepts;
    (state, all accepted) *)
 Fixpoint apply_all (a : app) (ls : list line) (st : state) : state * bool :=
@@ -318,7 +336,7 @@ Fixpoint apply_all (a : app) (ls : list line) (st : state) : state * bool :=
   | [] => (st, true)
   | l :: t => match apply_line a l st with
               | Some st' => apply_all a t st'
-              | None => (st, false)
+              | None => (partial_line a l st, false)
               end
   end.
 
